@@ -60,6 +60,7 @@ type Obligation struct {
 	Fn    string
 	Extra []string // extra script lines (assumptions specific to this obligation)
 	Groups []string // loop-invariant groups switched on for this obligation
+	InvOf  string   // set for the init/step obligations of a declared invariant: "-" for an ungrouped one, else its group
 }
 
 type retInfo struct {
@@ -111,6 +112,7 @@ type Exec struct {
 	nRec       int    // recursive call sites seen
 	boundFacts []Term // facts assumed for every value of the single bound variable (type invariants of loaded values)
 	contFacts  []Term // the boundFacts of the last contOf, with @J@ for the iteration variable
+	appendAt   []Term // lengths of slices just before a single element is appended (candidate witnesses)
 	concatLens []Term // lengths of the left operands of append(xs, ys...) with a symbolic ys
 	existsInvMemo int // 0 unknown, 1 no, 2 yes
 	reinst    bool   // an assumed invariant is being re-instantiated (its witnesses are not registered again)
